@@ -7,6 +7,7 @@ package main
 // with the symbolic run of HcModel/SpecController.lean over the labels regenerated from /repo.
 
 import (
+	"os"
 	"time"
 	"bytes"
 	"encoding/json"
@@ -99,6 +100,11 @@ func c04Run(c *Ctx, id string, r *rand.Rand, idx int, codeOk, forceLeadingZeroA,
 		}
 	}
 	ctrlID := randomCtrlID(r, idx*3+idx/8) // every kind of identifier with a right and with a wrong code
+	if idx%16 == 9 && codeOk {
+		// an identifier the accessory cannot store (its pairing file would need a name beyond NAME_MAX): the controller must be
+		// TOLD so — an M6 that reports success while nothing was stored leaves it paired with an accessory that does not know it
+		ctrlID = strings.Repeat("y", 123+r.Intn(100))
+	}
 	input := map[string]interface{}{"pin": pin, "controller_pin": ctrlPin, "controller_id": ctrlID, "code_ok": codeOk}
 	sw := accessory.NewSwitch(accessory.Info{Name: "Sw " + fmt.Sprint(r.Intn(100)), SerialNumber: strings.Repeat("S", r.Intn(3000))})
 	dir := c.ScratchDir()
@@ -115,6 +121,18 @@ func c04Run(c *Ctx, id string, r *rand.Rand, idx int, codeOk, forceLeadingZeroA,
 		return
 	}
 	defer cl.Close()
+	if idx%5 == 4 {
+		cl.expect = true // a controller whose HTTP stack sends "Expect: 100-continue" and waits for the interim answer
+		input["expect_100_continue"] = true
+		c.Hist("expect 100-continue")
+	}
+	if idx%4 == 1 {
+		// a crash during an earlier attempt to store this controller's pairing left its temporary file behind
+		os.MkdirAll(dir, 0755)
+		ioutil.WriteFile(filepath.Join(dir, hx([]byte(ctrlID))+".entity.tmp"), []byte(`{"Name":"half written`), 0644)
+		input["stale_temporary_file_of_this_controllers_pairing"] = true
+		c.Hist("stale entity temporary file")
+	}
 	if segmented {
 		cl.seg = rand.New(rand.NewSource(r.Int63())) // requests arrive cut into several TCP segments
 		input["segmented_requests"] = true
@@ -149,6 +167,12 @@ func c04Run(c *Ctx, id string, r *rand.Rand, idx int, codeOk, forceLeadingZeroA,
 		obs["stored"] = "other"
 	}
 	obs["m6"] = b01(sr.M6SigOK)
+	if codeOk && len(ctrlID) > 122 && strings.HasPrefix(sr.ErrAt, "M6 error") && eerr != nil {
+		// the documented limit: not storable, and said so
+		c.Hist("unstorable identifier refused at M6")
+		c.Count(fmt.Sprint(input), true, "codeOk=true", "idlen>122")
+		return
+	}
 	if codeOk {
 		if sr.ErrAt != "" {
 			c.Violate("specification controller with the right setup code cannot complete pair-setup", id, input, "M6 verified", sr.ErrAt)
